@@ -14,9 +14,12 @@ import importlib
 import json
 import multiprocessing
 import os
+import pickle
 import random
+import signal
 import subprocess
 import sys
+import threading
 import time
 import traceback
 
@@ -27,13 +30,103 @@ _TRACE_RUNS = bool(os.environ.get("VERIF_TRACE_RUNS"))
 _MOD = None
 
 
+class CaseTimeout(BaseException):
+    """Raised by SIGALRM in the main thread: the case looks stuck."""
+
+
+def _on_alarm(_sig, _frame):
+    raise CaseTimeout()
+
+
+SUSPECT_WALL_S = float(os.environ.get("VERIF_SUSPECT_WALL", "25"))
+LINE_BUDGET = int(os.environ.get("VERIF_LINE_BUDGET", "40000000"))
+
+
+def _budgeted_body(mod, case, budget):
+    """Execute under a deterministic step counter (line events in the tree
+    under test).  Exceeding the budget ends the child on the spot."""
+    prefix = os.path.join(core.repo_dir(), "")
+    count = [0]
+    wfd = _BUDGET_PIPE[0]
+
+    def local(frame, event, _arg):
+        if event == "line":
+            count[0] += 1
+            if count[0] > budget:
+                os.write(wfd, pickle.dumps(("budget", count[0])))
+                os._exit(0)  # pylint: disable=protected-access
+        return local
+
+    def glob(frame, event, _arg):
+        if event == "call" and frame.f_code.co_filename.startswith(prefix):
+            return local
+        return None
+
+    sys.settrace(glob)
+    try:
+        out = mod.execute(case)
+    finally:
+        sys.settrace(None)
+    return out.to_json(), count[0]
+
+
+_BUDGET_PIPE = [None]
+
+
+def budgeted_execute(mod, case, budget=None):
+    """Returns an Outcome; a run that exceeds the line budget gets the
+    violation no_termination (deterministic, replayable)."""
+    budget = budget or LINE_BUDGET
+    rfd, wfd = os.pipe()
+    pid = os.fork()
+    if pid == 0:
+        os.close(rfd)
+        _BUDGET_PIPE[0] = wfd
+        try:
+            signal.setitimer(signal.ITIMER_REAL, 0)
+            res = _budgeted_body(mod, case, budget)
+            os.write(wfd, pickle.dumps(("ok", res)))
+        except BaseException:  # pylint: disable=broad-except
+            os.write(wfd, pickle.dumps(("err", traceback.format_exc())))
+        finally:
+            os._exit(0)  # pylint: disable=protected-access
+    os.close(wfd)
+    with os.fdopen(rfd, "rb") as f:
+        data = f.read()
+    os.waitpid(pid, 0)
+    if not data:
+        raise core.HarnessError("budgeted child died without a result")
+    status, res = pickle.loads(data)
+    if status == "err":
+        raise core.HarnessError("budgeted child failed:\n" + res)
+    out = core.Outcome()
+    if status == "budget":
+        out.violation = core.Violation(
+            "no_termination", {},
+            f"the history did not finish within {budget} executed lines of library code (ordinary histories need well under 1% of that)")
+        out.digest = "no-termination"
+        out.steps = res
+        return out
+    js, _count = res
+    out.violation = core.Violation.from_json(js["violation"])
+    out.digest, out.abstraction, out.nontrivial = js["digest"], js["abstraction"], js["nontrivial"]
+    out.faults, out.probes, out.steps, out.extra = js["faults"], js["probes"], js["steps"], js["extra"]
+    return out
+
+
 class _Guarded:
-    """The check module with `execute` wrapped: the cyclic collector runs
-    between runs, never inside one (a collection finalises suspended library
-    generators, i.e. runs library code at a point no seed decided)."""
+    """The check module with `execute` wrapped.
+
+    * The cyclic collector runs between runs, never inside one (a collection
+      finalises suspended library generators, i.e. runs library code at a point
+      no seed decided).
+    * A case that runs suspiciously long on the wall clock is not judged by the
+      clock: it is re-executed in a child under a deterministic line budget,
+      and only exceeding that budget is a violation (no_termination)."""
 
     def __init__(self, mod):
         self._mod = mod
+        self.suspects = 0
 
     def __getattr__(self, name):
         return getattr(self._mod, name)
@@ -41,10 +134,22 @@ class _Guarded:
     def execute(self, case):
         gc.collect()
         gc.disable()
+        use_alarm = not getattr(self._mod, "USES_THREADS", False) and threading.current_thread() is threading.main_thread()
         try:
-            return self._mod.execute(case)
+            if use_alarm:
+                signal.signal(signal.SIGALRM, _on_alarm)
+                signal.setitimer(signal.ITIMER_REAL, SUSPECT_WALL_S)
+            try:
+                return self._mod.execute(case)
+            except CaseTimeout:
+                pass
+            finally:
+                if use_alarm:
+                    signal.setitimer(signal.ITIMER_REAL, 0)
         finally:
             gc.enable()
+        self.suspects += 1
+        return budgeted_execute(self._mod, case)
 
 
 def _load_check(prop):
@@ -82,7 +187,7 @@ class _Agg:
             self.probes[k] = self.probes.get(k, 0) + v
         self.steps += out.steps
         if out.violation is not None and len(self.violations) < 8:
-            self.violations.append((index, seed, case, out.violation.to_json()))
+            self.violations.append([index, seed, case, out.violation.to_json()])
         if keep_sample and len(self.samples) < 1:
             self.samples.append({"run_index": index, "seed": seed, "case": case,
                                  "digest": out.digest, "nontrivial": out.nontrivial})
@@ -97,6 +202,10 @@ class _Agg:
 
 
 def run_indices(mod, prop, tier, batch_seed, indices, keep_sample=True, digest_only=False):
+    # everything alive now (imports, reference tables) goes to the permanent
+    # generation: the per-run collections only look at what the runs allocate
+    gc.collect()
+    gc.freeze()
     agg = _Agg()
     per_run = []
     for i in indices:
@@ -119,15 +228,70 @@ def run_indices(mod, prop, tier, batch_seed, indices, keep_sample=True, digest_o
     return res
 
 
+def _init_worker(counter):
+    """Pin each worker to one CPU: the simulated threads of a run hand a baton
+    to each other thousands of times; on one core that is a plain context
+    switch, across cores it is a cross-CPU wake-up (several times slower)."""
+    with counter.get_lock():
+        idx = counter.value
+        counter.value += 1
+    try:
+        cpus = sorted(os.sched_getaffinity(0))
+        os.sched_setaffinity(0, {cpus[idx % len(cpus)]})
+    except (AttributeError, OSError):
+        pass
+
+
+def in_forked_child(fn, *args):
+    """Run fn(*args) in a forked child and return ("ok", result) or
+    ("err", text).  The caller's process never executes library code, so every
+    chunk of runs (and every known-finding probe) starts from the same pristine
+    state: permuta imported, nothing called."""
+    rfd, wfd = os.pipe()
+    pid = os.fork()
+    if pid == 0:
+        code = 0
+        try:
+            os.close(rfd)
+            try:
+                data = pickle.dumps(("ok", fn(*args)))
+            except BaseException:  # pylint: disable=broad-except
+                data = pickle.dumps(("err", traceback.format_exc()))
+            with os.fdopen(wfd, "wb") as f:
+                f.write(data)
+        except BaseException:  # pylint: disable=broad-except
+            code = 3
+        finally:
+            os._exit(code)  # pylint: disable=protected-access
+    os.close(wfd)
+    with os.fdopen(rfd, "rb") as f:
+        data = f.read()
+    _, status = os.waitpid(pid, 0)
+    if not data:
+        return ("err", f"child process died without a result (wait status {status}: crash or watchdog)")
+    return pickle.loads(data)
+
+
+def _chunk_body(prop, tier, batch_seed, start, end, chunk_timeout):
+    faulthandler.dump_traceback_later(chunk_timeout, exit=True)
+    res = run_indices(_MOD, prop, tier, batch_seed, range(start, end), keep_sample=(start % 7 == 0))
+    faulthandler.cancel_dump_traceback_later()
+    return res
+
+
 def _worker_chunk(args):
     prop, tier, batch_seed, start, end, chunk_timeout = args
-    faulthandler.dump_traceback_later(chunk_timeout, exit=True)
-    try:
-        return run_indices(_MOD, prop, tier, batch_seed, range(start, end), keep_sample=(start % 7 == 0))
-    except BaseException:  # pylint: disable=broad-except
-        return {"harness_error": traceback.format_exc(), "chunk": (start, end)}
-    finally:
-        faulthandler.cancel_dump_traceback_later()
+    status, res = in_forked_child(_chunk_body, prop, tier, batch_seed, start, end, chunk_timeout)
+    if status != "ok":
+        return {"harness_error": res, "chunk": (start, end)}
+    for v in res["violations"]:
+        v.append(start)
+    return res
+
+
+def _probe_body(case):
+    out = _MOD.execute(case)
+    return out.to_json()
 
 
 # --- parent side --------------------------------------------------------------
@@ -183,9 +347,20 @@ def replay_in_fresh_process(prop, path, repo):
 def do_replay(mod, prop, path, as_json):
     with open(path) as f:
         rec = json.load(f)
-    case = rec["case"]
-    out = mod.execute(case)
     want = core.Violation.from_json(rec.get("violation"))
+    if "run_range" in rec:
+        rr = rec["run_range"]
+        out = core.Outcome()
+        for i in range(rr["start"], rr["index"] + 1):
+            rng = random.Random(core.derive_seed(rr["batch_seed"], prop, i))
+            for case in mod.cases(rng, rr["tier"]):
+                o = mod.execute(case)
+                if i == rr["index"] and o.violation is not None and (out.violation is None):
+                    out = o
+    elif want is not None and want.kind == "no_termination":
+        out = budgeted_execute(mod, rec["case"])
+    else:
+        out = mod.execute(rec["case"])
     res = {"violation": out.violation.to_json() if out.violation else None,
            "digest": out.digest,
            "same_class": bool(want and want.same_class(out.violation))}
@@ -203,21 +378,51 @@ def do_replay(mod, prop, path, as_json):
     return 0
 
 
-def handle_violation(mod, prop, index, seed, case, vjson, repo, do_min=True):
+def _range_replay(prop, tier, batch_seed, start, index, violation, repo, seed):
+    """A violation that needs earlier runs of the same process to manifest
+    (state leaking between independent histories): the replay artefact is the
+    run range itself, re-generated from the batch seed."""
+    path = _replay_path(prop, seed, "-range")
+
+    def attempt(s0):
+        with open(path, "w") as f:
+            json.dump({"property": prop, "seed": seed, "pythonhashseed": os.environ.get("PYTHONHASHSEED", ""),
+                       "run_range": {"batch_seed": batch_seed, "tier": tier, "start": s0, "index": index},
+                       "violation": violation.to_json(),
+                       "note": "violation needs the earlier runs of the same process: replay re-executes the seeded runs start..index in one fresh process"},
+                      f, indent=1, sort_keys=True)
+        return replay_in_fresh_process(prop, path, repo).get("same_class")
+
+    if not attempt(start):
+        return None
+    lo, hi = start, index  # runs lo..index reproduce; find the largest start that still does
+    while lo < hi:
+        mid = (lo + hi + 1) // 2
+        if attempt(mid):
+            lo = mid
+        else:
+            hi = mid - 1
+    attempt(lo)
+    return path
+
+
+def handle_violation(mod, prop, index, seed, case, vjson, repo, do_min=True, tier="quick", batch_seed=0, chunk_start=-1):
     """Confirm, minimise, write the replay, confirm it in a fresh process.
     Returns (path, violation) ."""
     violation = core.Violation.from_json(vjson)
+    tmp = write_replay(prop, seed, case, violation, "", path=_replay_path(prop, seed, "-unconfirmed"))
+    res = replay_in_fresh_process(prop, tmp, repo)
+    os.remove(tmp)
+    if not res.get("same_class"):
+        if chunk_start >= 0:
+            path = _range_replay(prop, tier, batch_seed, chunk_start, index, violation, repo, seed)
+            if path is not None:
+                return path, violation
+        _harness_error(f"violation of run {index} (seed {seed}) reproduces neither alone nor after the earlier runs "
+                       f"of its chunk in a fresh process: {violation!r} vs {res}")
     out = mod.execute(copy.deepcopy(case))
-    if not violation.same_class(out.violation):
-        # may depend on the PRNG-driven form; try once more in a fresh process
-        tmp = write_replay(prop, seed, case, violation, "", path=_replay_path(prop, seed, "-unconfirmed"))
-        res = replay_in_fresh_process(prop, tmp, repo)
-        if not res.get("same_class"):
-            _harness_error(f"violation of run {index} (seed {seed}) does not reproduce: "
-                           f"{violation!r} vs {out.violation!r}; case kept at {tmp}")
-        os.remove(tmp)
     case2 = case
-    if hasattr(mod, "freeze"):
+    if hasattr(mod, "freeze") and violation.same_class(out.violation):
         # turn PRNG-driven parts (schedule policy) into recorded data
         frozen = mod.freeze(copy.deepcopy(case), out)
         if frozen is not None:
@@ -225,19 +430,22 @@ def handle_violation(mod, prop, index, seed, case, vjson, repo, do_min=True):
             if violation.same_class(o2.violation):
                 case2 = frozen
     n_exec = 0
-    if do_min:
+    if do_min and violation.same_class(out.violation):
         case2, n_exec = minimize.minimize(
             case2, lambda c: mod.execute(copy.deepcopy(c)), violation,
             getattr(mod, "shrink_targets", lambda c: []), getattr(mod, "simplify", None))
     final = mod.execute(copy.deepcopy(case2))
-    if not violation.same_class(final.violation):
-        case2, final = case, out
-    path = write_replay(prop, seed, case2, final.violation, final.digest,
-                        note=f"minimised with {n_exec} executions from run index {index}")
-    res = replay_in_fresh_process(prop, path, repo)
-    if not res.get("same_class"):
-        _harness_error(f"replay file {path} does not reproduce in a fresh process: {res}")
-    return path, final.violation
+    if violation.same_class(final.violation):
+        path = write_replay(prop, seed, case2, final.violation, final.digest,
+                            note=f"minimised with {n_exec} executions from run index {index}")
+        if replay_in_fresh_process(prop, path, repo).get("same_class"):
+            return path, final.violation
+    # minimised form does not hold up in a fresh process: keep the original case
+    path = write_replay(prop, seed, case, violation, res.get("digest", ""),
+                        note=f"unminimised case of run index {index} (the minimised form did not reproduce in a fresh process)")
+    if not replay_in_fresh_process(prop, path, repo).get("same_class"):
+        _harness_error(f"replay file {path} does not reproduce in a fresh process")
+    return path, violation
 
 
 def run_batch(mod, prop, tier, batch_seed, repo, workers, runs_override=None, wall_override=None):
@@ -269,22 +477,28 @@ def run_batch(mod, prop, tier, batch_seed, repo, workers, runs_override=None, wa
         probe = entry.get("probe")
         if probe is None:
             continue
-        out = mod.execute(copy.deepcopy(probe))
+        status, res = in_forked_child(_probe_body, copy.deepcopy(probe))
+        if status != "ok":
+            _harness_error(f"known-finding probe {entry.get('id')} failed:\n{res}")
         total["evaluations"] += 1
-        if out.violation is not None and core.finding_matches(entry, out.violation):
+        pv = core.Violation.from_json(res["violation"])
+        if pv is not None and core.finding_matches(entry, pv):
             line = f"KNOWN-FINDING: property={prop} {entry['what']}"
             print(line, flush=True)
             printed_known.append(entry["what"])
-        elif out.violation is not None:
-            total["violations"].append((-1, 0, probe, out.violation.to_json()))
+        elif pv is not None:
+            total["violations"].append([-1, 0, probe, pv.to_json(), -1])
 
     truncated = False
+    if os.environ.get("VERIF_TIMING"):
+        print(f"timing: preflight+probes done at {time.monotonic() - t0:.1f}s", flush=True)
     if runs > 0:
         tasks = [(prop, tier, batch_seed, s, min(s + chunk, runs), chunk_timeout)
                  for s in range(0, runs, chunk)]
         ctx = multiprocessing.get_context("fork")
+        counter = ctx.Value("i", 0)
         with cf.ProcessPoolExecutor(max_workers=workers, mp_context=ctx,
-                                    max_tasks_per_child=plan.get("tasks_per_child")) as pool:
+                                    initializer=_init_worker, initargs=(counter,)) as pool:
             futs = [pool.submit(_worker_chunk, t) for t in tasks]
             try:
                 for fut in cf.as_completed(futs, timeout=wall_cap + chunk_timeout + 60):
@@ -307,10 +521,12 @@ def run_batch(mod, prop, tier, batch_seed, repo, workers, runs_override=None, wa
             except cf.process.BrokenProcessPool:
                 _harness_error("a worker process died (watchdog or crash)")
 
+    if os.environ.get("VERIF_TIMING"):
+        print(f"timing: batch done at {time.monotonic() - t0:.1f}s", flush=True)
     # --- violations ---------------------------------------------------------
     seen_classes = {}
     suppressed_known = {}
-    for index, seed, case, vjson in sorted(total["violations"], key=lambda v: (v[0], json.dumps(v[2], sort_keys=True))):
+    for index, seed, case, vjson, chunk_start in sorted(total["violations"], key=lambda v: (v[0], json.dumps(v[2], sort_keys=True))):
         v = core.Violation.from_json(vjson)
         matched = [e for e in known if core.finding_matches(e, v)]
         if matched:
@@ -324,7 +540,8 @@ def run_batch(mod, prop, tier, batch_seed, repo, workers, runs_override=None, wa
             seen_classes[sig] = seen_classes.get(sig, 0) + 1
             continue
         seen_classes[sig] = 1
-        path, final_v = handle_violation(mod, prop, index, seed, case, vjson, repo)
+        path, final_v = handle_violation(mod, prop, index, seed, case, vjson, repo, tier=tier,
+                                         batch_seed=batch_seed, chunk_start=chunk_start)
         print(f"violation: {final_v.kind} {json.dumps(final_v.key, sort_keys=True)} :: {final_v.detail}", flush=True)
         print(f"VIOLATION property={prop} replay={path}", flush=True)
         violations_out.append(path)
